@@ -57,7 +57,7 @@ var BuiltinNames = []string{"not", "isnull", "isnotnull", "tolower", "toupper", 
 var PassThrough = []string{"f", "g2", "dateadd", "my_func", "F", "strlen", "COUNTIF", "bin"}
 
 var numSpellings = []string{"0", "1", "2", "7", "42", "007", "0x1F", "0X0a", "0xffffffffffffffff", ".5", "1.", "1.5", "0.25", "1e3", "1E+2", "1.e-1", "00.50", "9007199254740993", "123456789012345678901234567890", "1e400"}
-var intSpellings = []string{"0", "1", "2", "3", "10", "007", "0x1F", "0X0a", "18446744073709551615", "18446744073709551616", "340282366920938463463374607431768211456"}
+var intSpellings = []string{"0", "1", "2", "3", "10", "007", "0x1F", "0X0a", "18446744073709551615", "18446744073709551616", "340282366920938463463374607431768211456", "2147483648", "4294967296", "9223372036854775808"}
 var strValues = []string{"", "a", "A", "b c", "Thunderstorm Wind", "x"}
 var hostileStrValues = []string{"it's", `say "hi"`, `back\slash`, `end\`, "tab\there", "nl\nline", "é", "--", "/* c */", ";", "' OR 1=1 --", `\'`, "\x00", "bad\xffutf", "`", `'; DROP TABLE t; --`, `\\`, "{p}", "a''b"}
 
